@@ -65,8 +65,8 @@ def gen_models(rnd, ctx):
     mnames = list(M['ops'])
     ren = {}
     for i, n in enumerate(list(A['ops'])):
-        if i < len(mnames):
-            ren[n] = mnames[i]
+        # collision-free: the first operators take the probe model's operator names, the others a fresh suffix
+        ren[n] = mnames[i] if i < len(mnames) else n + '_a'
     A2 = copy.deepcopy(A)
     A2['ops'] = {ren.get(n, n): o for n, o in A['ops'].items()}
     for nt in A2['node_types'].values():
